@@ -254,6 +254,8 @@ class CaseGen:
             ("binary", 5), ("isograph_named", 4), ("stray_artifact", 2), ("move_out", 4), ("move_in", 4),
             ("schema", 10), ("ext", 6),
         ]
+        if getattr(self, "weights_override", None):
+            kinds = [(a, self.weights_override.get(a, b)) for a, b in kinds]
         k = r.choices([a for a, _ in kinds], [b for _, b in kinds])[0]
         # the edits behind the open known findings end a script early: keep them rare
         avoid = self.avoid_known or r.random() < 0.75
@@ -425,6 +427,8 @@ class CaseGen:
                 a = r.choice(outs)
                 b = self.new_src_path()
                 if not b or not self.parent_exists(b):
+                    return None
+                if avoid and isinstance(m.files[a], bytes) and is_source_name(b):
                     return None
                 m.add_file(b, m.files.pop(a))
                 return {"op": "rename", "from": a, "to": b}, [b]
@@ -888,8 +892,9 @@ def real_session(cli, tool, seed, work, idx, n_steps):
                     out["records_ok" if k == "ok" else "records_error"] += 1
                 if end == "exited" or not s.alive():
                     return dict(out, status="violation", rule="watcher-stops", step=si,
-                                what="isograph_cli --watch exited after an edit: " + s.buf[-300:].replace("\n", " | "),
-                                cause=cause_of_ops(applied), witness={"seed": seed, "steps": steps[:si + 1]})
+                                what="isograph_cli --watch exited after an edit: " + first_panic(s.buf),
+                                cause=exit_cause(s.buf, applied),
+                                witness={"seed": seed, "steps": steps[:si + 1], "output_tail": s.buf[-4000:]})
                 raw_art = snapshot_dir(os.path.join(proj, art))
                 got_art = {p: h for p, h in raw_art.items() if p not in strays}
                 if want["kind"] == "ok":
@@ -925,6 +930,27 @@ def real_session(cli, tool, seed, work, idx, n_steps):
     finally:
         out["tail"] = s.close()[-200:]
         shutil.rmtree(os.path.join(work, f"real{idx}"), ignore_errors=True)
+
+
+def first_panic(buf):
+    m = re.search(r"thread '[^']*'[^\n]*panicked at[^\n]*\n[^\n]*", buf)
+    if m:
+        return m.group(0).replace("\n", " | ")[:400]
+    return buf[-300:].replace("\n", " | ")
+
+
+def exit_cause(buf, ops):
+    """The watcher process ended. If a thread of the notify / notify-debouncer-full crates panicked
+    (the first panic decides), that is the cause, whatever the edit was."""
+    m = re.search(r"thread '([^']*)'[^\n]*panicked at ([^\n:]*)", buf)
+    if m and ("notify" in m.group(1) or "/notify-" in m.group(2)):
+        return "real:notify-thread-panicked"
+    # the same causes as in the sim leg
+    if "Unable to convert file to utf8" in buf[-3000:]:
+        return "non-utf8-source-file"
+    if "Schema not found" in buf[-3000:]:
+        return "schema-removed-or-replaced"
+    return cause_of_ops(ops)
 
 
 def cause_of_ops(ops):
